@@ -4,7 +4,7 @@ use ahash::HashSet;
 use itertools::Itertools;
 use num::Zero;
 use serde::{Deserialize, Serialize};
-use statrs::function::gamma::gamma;
+use statrs::function::gamma::{gamma, ln_gamma};
 
 use crate::{float::MomTropFloat, Graph, MAX_EDGES};
 
@@ -437,7 +437,16 @@ impl TropicalSubgraphTable {
             .map(|e| gamma(e.weight))
             .product::<f64>();
 
-        let gamma_ratio = gamma_omega / denom;
+        let mut gamma_ratio = gamma_omega / denom;
+        if !gamma_ratio.is_finite() || gamma_ratio == 0.0 {
+            // gamma(dod) and the product overflow long before their ratio does
+            let ln_denom = tropical_graph
+                .topology
+                .iter()
+                .map(|e| ln_gamma(e.weight))
+                .sum::<f64>();
+            gamma_ratio = (ln_gamma(tropical_graph.dod) - ln_denom).exp();
+        }
         let pi_factor = f64::consts::PI.powf((dimension * tropical_graph.num_loops) as f64 / 2.);
 
         let table = option_subgraph_table
